@@ -448,6 +448,26 @@ def _query(ctx, P, obj, p, policy, model, step, nset):
         if not (0.0 < Lin[i] <= 1.0):
             raise Violation("linear_range", "calc_path_loss(...)[%d] = %r "
                             "not in (0, 1]" % (i, Lin[i]), t)
+    # whole-number distances handed over as an INTEGER-dtype array must give
+    # what the same distances give one by one as floats
+    if policy and step["form"] != "list":
+        di = [max(1, int(round(x))) for x in ds]
+        Dint = np.array(di, dtype=np.int64).reshape(shape)
+        Rint = np.asarray(obj.calc_path_loss_dB(Dint, **kw))
+        Lint = np.asarray(obj.calc_path_loss(Dint, **kw))
+        for i in range(n):
+            kw_i = dict(num_walls=int(wl[i])) if model == "metis" else {}
+            r_s = float(obj.calc_path_loss_dB(float(di[i]), **kw_i))
+            l_s = float(obj.calc_path_loss(float(di[i]), **kw_i))
+            ctx.close("int_array_vs_float_scalar",
+                      abs(float(Rint.reshape(-1)[i]) - r_s),
+                      1e-11 * max(1.0, abs(r_s)),
+                      "integer distance array element d=%d: %r dB, scalar "
+                      "float %r dB" % (di[i], Rint.reshape(-1)[i], r_s), t)
+            ctx.close("int_array_vs_float_scalar_linear",
+                      _rel(float(Lint.reshape(-1)[i]), l_s), 1e-11,
+                      "integer distance array element d=%d" % di[i], t)
+        ctx.label("int_distance_array_checked")
     # monotone in distance (same wall count)
     order = sorted(range(n), key=lambda i: ds[i])
     for a in range(n):
@@ -553,8 +573,18 @@ def _check_antenna(case, ctx):
         ref = G * 10.0 ** (-min(12.0 * (a / th3) ** 2, Am) / 10.0)
         ctx.close("antenna_pattern_formula", _rel(g, ref), 1e-12,
                   "gain(%r)=%r, 3GPP 25.996 pattern %r" % (a, g, ref), tags)
-    arr = np.asarray(ant.get_antenna_gain(np.array(angles, dtype=float)),
-                     dtype=float)
+    ang = np.array(angles, dtype=float)
+    arr = np.asarray(ant.get_antenna_gain(ang), dtype=float)
+    # the caller's angle array is used again (symmetry check, next antenna):
+    # it still holds the angles and the same query gives the same gains
+    if not np.array_equal(ang, np.array(angles, dtype=float)):
+        raise Violation("angles_modified", "get_antenna_gain changed the "
+                        "array of angles handed to it: %r -> %r" %
+                        (angles, ang.tolist()), tags)
+    arr_again = np.asarray(ant.get_antenna_gain(ang), dtype=float)
+    if not np.array_equal(arr, arr_again):
+        raise Violation("second_query_differs", "the same angle array gives "
+                        "different gains the second time", tags)
     if arr.shape != (len(angles),):
         raise Violation("result_shape", "get_antenna_gain(array of %d) has "
                         "shape %r" % (len(angles), arr.shape), tags)
